@@ -367,6 +367,7 @@ type c15Duties struct {
 	accts     map[phase0.ValidatorIndex]*c15Acct
 	asked     []phase0.Epoch
 	delay     int64 // the node takes this long over the answer
+	nullFirst bool  // the answer's list starts with a null entry (the client library hands it on as it is)
 }
 
 func (d *c15Duties) SyncCommitteeDuties(_ context.Context, opts *api.SyncCommitteeDutiesOpts) (*api.Response[[]*apiv1.SyncCommitteeDuty], error) {
@@ -384,6 +385,9 @@ func (d *c15Duties) SyncCommitteeDuties(_ context.Context, opts *api.SyncCommitt
 				out = append(out, &apiv1.SyncCommitteeDuty{PubKey: d.accts[i].pubkey(), ValidatorIndex: i, ValidatorSyncCommitteeIndices: pos})
 			}
 		}
+	}
+	if d.nullFirst && len(out) > 0 {
+		out = append([]*apiv1.SyncCommitteeDuty{nil}, out...)
 	}
 	return &api.Response[[]*apiv1.SyncCommitteeDuty]{Data: out, Metadata: map[string]any{}}, nil
 }
